@@ -57,6 +57,7 @@ class Sim(object):
         # ghost state
         self.G = {}                    # position -> (command, idx, term) first reported committed
         self.G_by = {}
+        self.G_term = {}
         self.prev_commit = collections.defaultdict(lambda: 1)
         self.prev_applied = collections.defaultdict(lambda: 1)
         self.last_exec = collections.defaultdict(int)
@@ -1091,6 +1092,7 @@ class Sim(object):
             if g is None:
                 self.G[p] = e
                 self.G_by[p] = (name, self.step_no)
+                self.G_term[p] = obj.raftCurrentTerm        # term in which the position was (first reported) committed
             elif g != e:
                 self.V('C04', 'committed-entry-differs',
                        '%s reports position %d committed holding (term %d, %r) but %s reported (term %d, %r) at step %d' % (
@@ -1227,6 +1229,11 @@ class Sim(object):
                 obj = self.nodes.get(name)
                 if obj is not None:
                     for p, e in self.G.items():
+                        # Leader Completeness speaks about leaders of terms after the one in which the entry was
+                        # committed; a leader of an older term can still emerge from delayed votes (it cannot commit)
+                        if self.G_term.get(p, 0) >= term:
+                            self.counters['stale_term_leader_emerged'] += 1
+                            continue
                         if not self.holds(name, p, e):
                             ent = entry_at(obj, p)
                             self.V('C03', 'new-leader-lacks-committed-entry',
